@@ -164,8 +164,23 @@ def run_one(chk, cfg, mode, drv_lines, keep, with_resume):
     ks = sorted(set(int(v) for v in np.linspace(1, max(1, n_like - 1), 4)))
     import tempfile
     tmp = tempfile.mkdtemp(prefix="aspire_verif_")
+    # a second fresh run on the SAME sampler object: its record must be the record of that run alone
+    if cfg["seed"] % 2 == 0:
+        r7 = smcrun.run_smc({**cfg, "seed": int(cfg["seed"]) + 3}, reuse=res)
+        chk.count("second_run_on_same_object")
+        if r7["status"] == "done":
+            check_history(chk, dict(case, second_run_on_same_sampler=True), r7)
+        elif not smcrun.collapsed_population(r7):
+            chk.fail("run total", dict(case, second_run_on_same_sampler=True), repr(r7.get("exc")), {"clause": "raise"})
+    ks = sorted(set(ks) | set(int(v) for v in np.linspace(2, max(2, n_like - 1), 9)))
     for j, k in enumerate(ks):
         r1 = smcrun.run_smc(cfg, fault_at=k, record_checkpoints=True)
+        if r1["status"] == "done":
+            # the one-off failure of the likelihood did not end the run (it was absorbed, e.g. by a retry): the record of the
+            # finished run must still be faithful
+            chk.count("transient_fault_absorbed")
+            check_history(chk, {"cfg": cfg, "mode": mode, "transient_fault_at_likelihood_call": k}, r1)
+            continue
         if r1["status"] != "fault":
             continue
         route = smcrun.ROUTES[(j + cfg["seed"]) % 4]
